@@ -225,7 +225,7 @@ func runC06(c *core.Ctx, o Options) {
 	c.Check(nSL >= 2, "T1", "", "transitions to SuccessfulLogged exist", 0, "found", "fewer than two transitions to SuccessfulLogged found: the anchor moved")
 
 	// ---- T2 checkLogonParams
-	s.checkLogonParams()
+	s.checkLogonParams("T2")
 	s.checkAcceptorCtor()
 
 	// ---- T3 / T4 on the Logon handler
@@ -474,6 +474,7 @@ func runC06(c *core.Ctx, o Options) {
 	s.checkEventMapping("M1", map[string]string{"SuccessfulLogged": "EventLogon"})
 	s.checkIsLoggedExact("T6")
 	s.checkRestingSide("T1")
+	s.checkRegisteredOnce("T1", true, "Logon")
 	c.RuleMin = map[string]int{"M1": 3, "T1": 6, "T2": 4, "T3": 1, "T4": 1, "T5": 2, "T6": 1}
 	c.MinObl = 17
 }
@@ -489,7 +490,7 @@ func sendsOfKind(t *an.Trace, kind string) []an.Event {
 }
 
 // checkLogonParams (rule T2): the accept/refuse decision tree.
-func (s *sess) checkLogonParams() {
+func (s *sess) checkLogonParams(rule string) {
 	c := s.c
 	fn := s.m.Method("checkLogonParams")
 	if !c.Anchor("logon parameter check", fn != nil, "(*Session).checkLogonParams", posOf(fn)) {
@@ -497,7 +498,7 @@ func (s *sess) checkLogonParams() {
 	}
 	paths, over := an.EnumPaths(fn, 256)
 	if over {
-		c.Ob("T2", "checkLogonParams", "paths", fn.Pos()).Unknown("too many paths")
+		c.Ob(rule, "checkLogonParams", "paths", fn.Pos()).Unknown("too many paths")
 		return
 	}
 	hb := "incoming.HeartBtInt()"
@@ -552,7 +553,7 @@ func (s *sess) checkLogonParams() {
 			bad = append(bad, "result is not a constant: "+p.Results[0])
 		}
 	}
-	ob := c.Ob("T2", "checkLogonParams", "accepts iff method allowed ∧ Min ≤ HeartBtInt ≤ Max; names the offending tag", fn.Pos())
+	ob := c.Ob(rule, "checkLogonParams", "accepts iff method allowed ∧ Min ≤ HeartBtInt ≤ Max; names the offending tag", fn.Pos())
 	if len(bad) > 0 {
 		ob.Fail("%s", bad[0])
 		if len(bad) > 1 {
